@@ -1,7 +1,203 @@
 //! Further ops (added per property).
-use crate::exec::CaseResult;
-use crate::text::SExp;
+use ipp::prelude::*;
 
-pub fn exec2(_prop: &str, _op: &str, _line: &str, _args: &[SExp]) -> Option<CaseResult> {
-    None
+use crate::exec::*;
+use crate::text::*;
+use crate::wiregen;
+
+pub fn exec2(prop: &str, op: &str, line: &str, args: &[SExp]) -> Option<CaseResult> {
+    match op {
+        "encoded" => Some(op_encoded(line, args)),
+        "wire" => Some(op_wire(prop, line, args)),
+        "bomb" => Some(op_bomb(line, args)),
+        _ => None,
+    }
+}
+
+fn badarg(line: &str, why: &str) -> CaseResult {
+    CaseResult { line: line.to_string(), result: format!("(bad-arg {})", why), oracle: None, class: "bad-arg".into() }
+}
+
+/// `encoded MSG [bytes]`: the instance's own listing and the bytes it produces; judged by the model
+/// encoder and by the independent decoder on the Lean side
+fn op_encoded(line: &str, args: &[SExp]) -> CaseResult {
+    let m = match args.first().and_then(read_msg) {
+        Some(m) => m,
+        None => return badarg(line, "encoded"),
+    };
+    let req = match build(&m) {
+        Some(r) => r,
+        None => return badarg(line, "group-tag"),
+    };
+    let (listing, badkey) = unbuild(req.header(), req.attributes(), true);
+    let bytes = req.to_bytes();
+    let eff = format!("encoded {} {}", show_msg(&listing), hex(&bytes));
+    let oracle = if badkey { Some("map key differs from stored attribute name".into()) } else { None };
+    CaseResult { line: eff, result: "match".into(), oracle, class: "encoded".into() }
+}
+
+/// `wire WMSG payload`: a wire tree serialised by the harness, read by the real parser
+fn op_wire(_prop: &str, line: &str, args: &[SExp]) -> CaseResult {
+    let (w, payload) = match (args.first().and_then(wiregen::read_wmsg), args.get(1).and_then(|a| a.atom()).and_then(unhex)) {
+        (Some(w), Some(p)) => (w, p),
+        _ => return badarg(line, "wire"),
+    };
+    let mut bytes = wiregen::ser(&w);
+    bytes.extend_from_slice(&payload);
+    let r = parse_flat(&bytes);
+    if let Ok((h, a, _)) = &r {
+        exercise_attrs(h, a);
+    }
+    let (ptext, badkey) = parsed_text(r);
+    let mut oracle = if badkey { Some("map key differs from stored attribute name".to_string()) } else { None };
+    let (atext, _) = parsed_text(parse_flat_async(&bytes));
+    if atext != ptext {
+        oracle = Some(format!("async parser differs: {} vs {}", clip(&atext), clip(&ptext)));
+    }
+    let class = outcome_class(&ptext);
+    CaseResult { line: line.into(), result: ptext, oracle, class }
+}
+
+#[allow(dead_code)]
+fn _unused(_: &IppValue) {}
+
+// ---------------------------------------------------------------------------------------------
+// structural bombs: run in a child process so that an abort is observed, not suffered
+
+/// nesting depth of a value without recursion
+pub fn depth_iter(v: &IppValue) -> usize {
+    let mut max = 0;
+    let mut stack: Vec<(&IppValue, usize)> = vec![(v, 1)];
+    while let Some((v, d)) = stack.pop() {
+        if d > max {
+            max = d;
+        }
+        match v {
+            IppValue::Array(vs) => {
+                for e in vs {
+                    stack.push((e, d + 1));
+                }
+            }
+            IppValue::Collection(m) => {
+                for e in m.values() {
+                    stack.push((e, d + 1));
+                }
+            }
+            _ => {}
+        }
+    }
+    max
+}
+
+pub fn summary(r: &Result<(IppHeader, IppAttributes, Vec<u8>), ipp::parser::IppParseError>) -> String {
+    match r {
+        Ok((_, a, rest)) => {
+            let groups = a.groups().len();
+            let mut attrs = 0;
+            let mut depth = 0;
+            for g in a.groups() {
+                attrs += g.attributes().len();
+                for at in g.attributes().values() {
+                    depth = depth.max(depth_iter(at.value()));
+                }
+            }
+            format!("(ok groups={} attrs={} depth={} rest={})", groups, attrs, depth, rest.len())
+        }
+        Err(e) => show_parse_err(e),
+    }
+}
+
+/// child side: parse, report, then display / re-encode / traverse / clone / drop, reporting each stage
+pub fn bomb_child(kind: &str, n: usize) {
+    use std::io::Write;
+    let bytes = match crate::malformed::family(kind, n) {
+        Some(b) => b,
+        None => std::process::exit(3),
+    };
+    let out = std::io::stdout();
+    let r = parse_flat(&bytes);
+    println!("parsed {}", summary(&r));
+    out.lock().flush().ok();
+    if let Ok((h, a, _)) = r {
+        let mut n = 0usize;
+        for g in a.groups() {
+            for at in g.attributes().values() {
+                n += format!("{}", at.value()).len();
+            }
+        }
+        println!("display ok {}", n);
+        out.lock().flush().ok();
+        n = h.to_bytes().len() + a.to_bytes().len();
+        println!("encode ok {}", n);
+        out.lock().flush().ok();
+        n = 0;
+        for g in a.groups() {
+            for at in g.attributes().values() {
+                for e in at.value() {
+                    n += e.to_tag() as usize;
+                }
+            }
+        }
+        println!("traverse ok {}", n);
+        out.lock().flush().ok();
+        let c = a.clone();
+        println!("clone ok {}", c.groups().len());
+        out.lock().flush().ok();
+        drop(c);
+        drop(a);
+        println!("drop ok");
+        out.lock().flush().ok();
+    }
+}
+
+fn op_bomb(line: &str, args: &[SExp]) -> CaseResult {
+    let (kind, n) = match (args.first().and_then(|a| a.atom()), args.get(1).and_then(|a| a.atom()).and_then(|s| s.parse::<usize>().ok())) {
+        (Some(k), Some(n)) => (k.to_string(), n),
+        _ => return badarg(line, "bomb"),
+    };
+    let len = match crate::malformed::family(&kind, n) {
+        Some(b) => b.len(),
+        None => return badarg(line, "family"),
+    };
+    let exe = std::env::current_exe().unwrap();
+    let t0 = std::time::Instant::now();
+    let o = std::process::Command::new(exe).arg("bombchild").arg(&kind).arg(n.to_string()).output();
+    let secs = t0.elapsed().as_secs_f64();
+    let o = match o {
+        Ok(o) => o,
+        Err(e) => return badarg(line, &format!("spawn: {}", e)),
+    };
+    let text = String::from_utf8_lossy(&o.stdout).to_string();
+    let lines: Vec<&str> = text.lines().collect();
+    let parsed = lines.iter().find(|l| l.starts_with("parsed ")).map(|l| l[7..].to_string());
+    let last_stage = lines.last().map(|l| l.split(' ').next().unwrap_or("").to_string()).unwrap_or_else(|| "start".into());
+    let depth: usize = parsed.as_deref().and_then(|p| p.split("depth=").nth(1)).and_then(|s| s.split(' ').next()).and_then(|s| s.parse().ok()).unwrap_or(0);
+    let mut oracle = None;
+    if !o.status.success() {
+        use std::os::unix::process::ExitStatusExt;
+        let how = match o.status.signal() {
+            Some(s) => format!("signal {}", s),
+            None => format!("exit status {:?}", o.status.code()),
+        };
+        oracle = Some(match &parsed {
+            Some(_) => format!("process aborted ({}) after parse returned, while the result was being {} (input {} bytes, nesting depth {})", how, next_stage(&last_stage), len, depth),
+            None => format!("process aborted ({}) inside parse (input {} bytes)", how, len),
+        });
+    } else if secs > 60.0 {
+        oracle = Some(format!("parsing and handling {} bytes took {:.0} s", len, secs));
+    }
+    let result = parsed.unwrap_or_else(|| "(abort)".into());
+    let class = format!("bomb-{}", kind);
+    CaseResult { line: line.into(), result, oracle, class }
+}
+
+fn next_stage(last: &str) -> &'static str {
+    match last {
+        "parsed" => "displayed",
+        "display" => "re-encoded",
+        "encode" => "traversed",
+        "traverse" => "cloned",
+        "clone" => "dropped",
+        _ => "handled",
+    }
 }
